@@ -184,44 +184,41 @@ func (i *Injector) injectSelfMonitor(cfg *config.Config) {
 }
 
 func (i *Injector) marshal(cfg *config.Config) ([]byte, error) {
-	bTokens := make([]string, 0)
-	password := make([]string, 0)
-
-	for _, w := range cfg.RemoteWriteConfigs {
-		if w.HTTPClientConfig.BearerToken != "" {
-			bTokens = append(bTokens, string(w.HTTPClientConfig.BearerToken))
-		}
-
-		if w.HTTPClientConfig.BasicAuth != nil && w.HTTPClientConfig.BasicAuth.Password != "" {
-			password = append(password, string(w.HTTPClientConfig.BasicAuth.Password))
-		}
-
-	}
-
-	for _, w := range cfg.RemoteReadConfigs {
-		if w.HTTPClientConfig.BearerToken != "" {
-			bTokens = append(bTokens, string(w.HTTPClientConfig.BearerToken))
-		}
-
-		if w.HTTPClientConfig.BasicAuth != nil && w.HTTPClientConfig.BasicAuth.Password != "" {
-			password = append(password, string(w.HTTPClientConfig.BasicAuth.Password))
-		}
-	}
-
 	gen, err := yaml.Marshal(&cfg)
 	if err != nil {
 		return nil, errors.Wrapf(err, "marshal config failed")
 	}
 
-	data := string(gen)
-	for _, token := range bTokens {
-		data = strings.Replace(data, "bearer_token: <secret>", fmt.Sprintf("bearer_token: %s", token), 1)
+	// marshalling the parsed config masks every secret as "<secret>". Only the scrape jobs were
+	// changed, so only "scrape_configs" is taken from the marshalled config; all other sections
+	// (global, rule_files, alerting, remote_write, remote_read, ...) are kept as they are written
+	// in the raw content, secrets included
+	genTree, rawTree := yaml.MapSlice{}, yaml.MapSlice{}
+	if err := yaml.Unmarshal(gen, &genTree); err != nil {
+		return nil, errors.Wrapf(err, "unmarshal generated config")
+	}
+	if err := yaml.Unmarshal(i.curCfg.RawContent, &rawTree); err != nil {
+		return nil, errors.Wrapf(err, "unmarshal raw config")
 	}
 
-	for _, pd := range password {
-		data = strings.Replace(data, "password: <secret>", fmt.Sprintf("password: %s", pd), 1)
+	const scrapeConfigs = "scrape_configs"
+	out := yaml.MapSlice{}
+	for _, item := range rawTree {
+		if item.Key != scrapeConfigs {
+			out = append(out, item)
+		}
 	}
-	return []byte(data), nil
+	for _, item := range genTree {
+		if item.Key == scrapeConfigs {
+			out = append(out, item)
+		}
+	}
+
+	data, err := yaml.Marshal(out)
+	if err != nil {
+		return nil, errors.Wrapf(err, "marshal config failed")
+	}
+	return data, nil
 }
 
 func (i *Injector) inject() (err error) {
